@@ -12,6 +12,8 @@
                                reflect_subsFresh, mangle_bound_not_free,
                                shared_binder_witness_names, shared_binder_unfold_witness (KF-shared-binder-unfold),
                                distinct_without_cache, distinct_binders_unfold_ok
+  Props/C05/Fusion.lean        alphaMangle_mixed_ok (mixed bound sets produced by fusing nested binders),
+                               mixed_bound_per_name, mixed_bound_whole_term_witness, mixed_bound_capture_witness
   this file                    alpha_rename_denote: the six class statements as one
 
   All statements are for every term / environment / substitution / cache state (structural induction over
@@ -23,6 +25,7 @@ import FunsorVerif.Props.C05.Coincidence
 import FunsorVerif.Props.C05.Alpha
 import FunsorVerif.Props.C05.Subst
 import FunsorVerif.Props.C05.Mangle
+import FunsorVerif.Props.C05.Fusion
 namespace FV.Props.C05
 open FV FV.C05
 
